@@ -179,7 +179,8 @@ def run(tier, seed):
                  "min(buffered, remaining request); the buffer cursor advances by the bytes copied and is reset only when the "
                  "buffer is refilled from the decoder; progress blocks rise by exactly one per callback up to the announced total; at every "
                  "input-callback site a byte of a local buffer is consumed only under a fact implying that the callback delivered it (short-read discipline). "
-                 "Not decided: split-invariance as an equality over read histories (follows from these rules only informally).")
+                 "The progress check follows every position update (R4b); the two getters return the fields the read path maintains (R1d); in every decoder the result of a bit reader is used as data only behind "
+                 "a fact excluding its failure value (R6, 208 uses). Not decided: split-invariance as an equality over read histories (follows from these rules only informally).")
     with Context(tier) as ctx:
         from .. import selfcheck
         selfcheck.run(ctx, rep, ['facts'])
